@@ -71,6 +71,8 @@ Sites ==
   \cup {[key |-> <<"builder", "env">>, n |-> 3]}
   \* a unary operator on the operand, itself the operand of a binary operator (the inner result has the operator's type)
   \cup {[key |-> <<"un-in-bin", op>>, n |-> 1] : op \in {"add", "minus", "lt", "na", "and", "or"}}
+  \* `add` of the operand and a number (a string at run time makes the sum a string), the sum then used where its type matters
+  \cup {[key |-> <<"add-use", w>>, n |-> 1] : w \in {"len", "na-str", "upper", "minus"}}
   \* a call whose callee is a value, not a name
   \cup {[key |-> <<"callee", w>>, n |-> 1] : w \in {"noargs", "onearg"}}
   \* index targets whose base is a call result
@@ -97,6 +99,11 @@ Use(site, d, id) ==
     [] k1 = "un-in-bin" ->
          IF k2 \in {"and", "or"} THEN <<Shout(id, Bin(k2, Un("not", d[1]), [k |-> "bool", v |-> TRUE])), Shout(id + 1, Bin(k2, [k |-> "bool", v |-> FALSE], Un("not", d[1])))>>
          ELSE <<Shout(id, Bin(k2, Un("neg", d[1]), Num(4))), Shout(id + 1, Bin(k2, Num(8), Un("neg", d[1])))>>
+    [] k1 = "add-use" ->
+         LET sum(l) == IF l THEN Bin("add", d[1], Num(4)) ELSE Bin("add", Num(4), d[1])
+             use(e) == CASE k2 = "len" -> M(e, "len", <<>>) [] k2 = "upper" -> M(e, "to_uppercase", <<>>)
+                         [] k2 = "na-str" -> Bin("na", e, StrL(<<115, 49>>)) [] k2 = "minus" -> Bin("minus", e, Num(4))
+         IN <<Shout(id, use(sum(TRUE))), Shout(id + 1, use(sum(FALSE)))>>
     [] k1 = "callee" ->
          \* `p(1)` would be a call BY NAME; a variable operand is wrapped so that the callee is a value
          LET o == IF d[1].k = "var" THEN Idx([k |-> "arr", es |-> <<d[1]>>], Num(0)) ELSE d[1] IN
